@@ -26,6 +26,8 @@ FORMAT = "crates/cgt-format/src/lib.rs"
 PLAIN = "crates/cgt-formatter-plain/src/lib.rs"
 VALID = "crates/cgt-core/src/validation.rs"
 WASM = "crates/cgt-wasm/src/lib.rs"
+PDFLIB = "crates/cgt-formatter-pdf/src/lib.rs"
+TYP = "crates/cgt-formatter-pdf/src/templates/report.typ"
 
 
 def mut(id, what, edits, expect=None, neutral=False):
@@ -323,6 +325,19 @@ MUTANTS = {
         mut("plain-raw-decimal", "text report prints a raw Decimal", [(PLAIN, "    let _ = writeln!(out, \"   Cost: {}\", format_gbp(total_cost));", "    let _ = writeln!(out, \"   Cost: {}\", total_cost);")], ["R3:"]),
         mut("date-format-us", "dates as MM/DD/YYYY", [(FORMAT, "    date.format(\"%d/%m/%Y\").to_string()", "    date.format(\"%m/%d/%Y\").to_string()")], ["R4:"]),
         mut("tax-year-4-digits", "tax year end printed in full", [(MODELS, "        let end_short = (self.0 + 1) % 100;\n        write!(f, \"{}/{:02}\", self.0, end_short)", "        let end_short = self.0 + 1;\n        write!(f, \"{}/{:02}\", self.0, end_short)")], ["R4:TaxPeriod:format"]),
+        mut("pdf-proceeds-from-gross", "PDF data packs gross proceeds under `proceeds`", [(PDFLIB, "    dict.insert(\"proceeds\".into(), decimal_to_value(disposal.proceeds)?);", "    dict.insert(\"proceeds\".into(), decimal_to_value(disposal.gross_proceeds)?);")], ["R9:"]),
+        mut("tpl-trim-both-ends", "template strips zeros at both ends of the fraction", [(TYP, "frac.trim(\"0\", at: end)", "frac.trim(\"0\")")], ["R11:"]),
+        mut("tpl-qty-4-places", "template rounds quantities to 4 places", [(TYP, "fmt-fixed(value, digits: 6)", "fmt-fixed(value, digits: 4)")], ["R11:quantity"]),
+        mut("tpl-date-us", "template writes MM/DD/YYYY", [(TYP, "pad2(d.day) + \"/\" + pad2(d.month)", "pad2(d.month) + \"/\" + pad2(d.day)")], ["R11:date"]),
+        mut("tpl-raw-gain", "summary gain rendered with str()", [(TYP, "      fmt-money(row.total_gain),", "      str(row.total_gain),")], ["R10:"]),
+        mut("tpl-money-of-quantity", "holdings column formats the share count as money", [(TYP, "fmt-money(row.total_cost / row.quantity)", "fmt-money(row.quantity)")], ["R10:"]),
+        mut("tpl-raw-quantity", "disposal quantity interpolated raw", [(TYP, "#fmt-qty(disposal.quantity) shares", "#disposal.quantity shares")], ["R10:"]),
+        mut("tpl-sign-le", "minus sign for zero", [(TYP, "  let sign = if value < 0 { sym.minus } else { \"\" }", "  let sign = if value <= 0 { sym.minus } else { \"\" }")], ["R11:money:sign"]),
+        mut("tpl-currency-no-abs", "foreign amounts: sign written and kept in the digits", [(TYP, "  let abs = calc.abs(amount)", "  let abs = amount")], ["R11:currency"]),
+        mut("tpl-floor", "template truncates instead of rounding", [(TYP, "  let rounded = calc.round(value, digits: digits)", "  let rounded = calc.floor(value * calc.pow(10, digits)) / calc.pow(10, digits)")], ["R1"]),
+        mut("tpl-group-4", "digit groups of four", [(TYP, "step: 3", "step: 4")], ["R11:group"]),
+        mut("neutral-tpl-inline-abs", "template: abs inlined into the rounding call", [(TYP, "  let abs = calc.abs(value)\n  let fixed = fmt-fixed(abs, digits: 2)", "  let fixed = fmt-fixed(calc.abs(value), digits: 2)")], neutral=True),
+        mut("neutral-tpl-rename", "template: quantity formatter renamed", [(TYP, "#let fmt-qty(value) =", "#let show-shares(value) ="), (TYP, "#text(fill: text-muted)[#fmt-qty(disposal.quantity) shares]", "#text(fill: text-muted)[#show-shares(disposal.quantity) shares]")], neutral=True),
         mut("mcp-float", "MCP explain converts to f64", [(SERVER, "                    quantity: m.quantity.to_string(),\n                    allowable_cost: m.allowable_cost.to_string(),", "                    quantity: m.quantity.to_string(),\n                    allowable_cost: rust_decimal::prelude::ToPrimitive::to_f64(&m.allowable_cost).unwrap_or(0.0).to_string(),")], ["R2:"]),
     ],
     "C18": [
